@@ -711,6 +711,21 @@ func checkC02(env *engine.Env, ci any) engine.Outcome {
 			}
 		}
 	}
+	// the same settings built as a library user would build them in Go: a deep copy sharing nothing with the parsed
+	// configuration, lists and maps without items written the other way round (nil <-> empty)
+	if err == nil {
+		for _, flip := range []bool{false, true} {
+			cd, cerr := packageCloned(text, f, flip)
+			out.Transitions++
+			if cerr != nil {
+				judge(fmt.Sprintf("settings-built-in-go:flip=%v", flip), nil, cerr)
+			} else if !bytes.Equal(cd, data) {
+				judge(fmt.Sprintf("settings-built-in-go:flip=%v", flip), cd, nil)
+				out.Violations = append(out.Violations, engine.Violation{Sig: "meta:settings-built-in-go:differs:" + f,
+					Detail: fmt.Sprintf("format=%s part=%s: the package from settings built in Go (deep copy, nil<->empty flipped: %v) differs from the package from the parsed configuration (%d vs %d bytes)\n%s", f, c.Part, flip, len(cd), len(data), text)})
+			}
+		}
+	}
 	// the same settings after ANOTHER package (other name, version, description; same files) was built
 	// in this process: nothing of that package may show up in this one
 	primer := c.Cfg
